@@ -214,7 +214,8 @@ impl Walk {
                     }
                 }
             }
-            _ if !self.session_ok => {}
+            // (self-contained macro requests do not depend on the session)
+            _ if !self.session_ok && !t[0].starts_with('@') => {}
             "create_table" => {
                 let name = str_of_hex(t[1]).unwrap();
                 let cols: Vec<ColDef> = t[2..].iter().map(|c| ColDef::parse(c).unwrap()).collect();
@@ -419,7 +420,9 @@ impl Walk {
                     self.fail(&["C01", "C20"], i, q, r, "the saved package does not reopen".into());
                     self.session_ok = false;
                 } else {
-                    self.before_reopen = self.last_snap.as_ref().map(|x| x.1.clone());
+                    // only a snapshot taken right before closing (no successful change since) says
+                    // what was observable just before closing
+                    self.before_reopen = if self.ok_mutation_since_snap { None } else { self.last_snap.as_ref().map(|x| x.1.clone()) };
                     self.after_reopen = true;
                 }
             }
@@ -445,7 +448,7 @@ impl Walk {
                 }
                 let get = |key: &str| -> Option<String> { parts.iter().find_map(|p| p.strip_prefix(key).map(|x| x.to_string())) };
                 if get("count=") != Some(total.to_string()) {
-                    self.fail(&["C20"], i, q, r, format!("the table should hold the {total} accepted rows and be readable"));
+                    self.fail(&["C20", "C04"], i, q, r, format!("the table should hold the {total} accepted rows (a refused batch changes nothing) and be readable"));
                 }
                 if get("reopen-count=") != Some(total.to_string()) {
                     self.fail(&["C20", "C01"], i, q, r, format!("after saving, the library does not read back the {total} rows it accepted"));
@@ -534,7 +537,8 @@ impl Walk {
         if self.after_reopen {
             self.after_reopen = false;
             if let Some(before) = self.before_reopen.take() {
-                if before != snap {
+                // (a successful change between the reopen and this snapshot makes them incomparable)
+                if !self.ok_mutation_since_snap && before != snap {
                     let why = describe_diff(&before, &snap);
                     self.fail(&["C01"], i, q, r, format!("after close and reopen: {why}"));
                 }
